@@ -287,6 +287,42 @@ theorem to_dict_from_dict_idempotent (md5 : List Str → Str) (cs : Frame) :
    fun _ _ h => by rw [gene_import_stable md5 h]; rfl, fun _ _ h => by rw [fc_import_stable md5 h]; rfl,
    fun _ _ h => by rw [vc_import_stable md5 h]; rfl⟩
 
+/-! ## T5 — export independence (model side of the `indep` operation)
+
+  In the model an export is the VALUE `…ToDict o` of a total Lean function of the stored state `o` and of nothing
+  else: there is no call history, no cache and no reference into `o`, so two exports of one state are equal by
+  reflexivity, editing an exported value cannot reach the state, and an export taken after the state changed to `o'`
+  is `…ToDict o'` — exactly what a fresh object in state `o'` exports.  What the real code must additionally
+  guarantee — that `to_dict()` / `__getstate__` / the model dump build NEW containers on every call and read the
+  CURRENT attributes — is not expressible without a heap and is decided on the real objects by the `indep` lines
+  (`Spec.Digest.okIndep`).  The converse direction is a theorem: -/
+
+/-- T5: the export determines the state — two objects in constructor state with equal exports are equal; hence the
+    exported dictionary is a faithful (injective) function of the state and of the state only. -/
+theorem export_determines_state (md5 : List Str → Str) (cs : Frame) :
+    (∀ o o' : TxObj, TxWF o → TxWF o' → txToDict o = txToDict o' → o = o') ∧
+    (∀ o o' : CdsObj, CdsWF md5 o → CdsWF md5 o' → cdsToDict o = cdsToDict o' → o = o') ∧
+    (∀ o o' : FeatObj, FeatWF o → FeatWF o' → featToDict o = featToDict o' → o = o') ∧
+    (∀ o o' : VarObj, VarWF o → VarWF o' → varToDict o = varToDict o' → o = o') ∧
+    (∀ o o' : GeneObj, GeneWF o → GeneWF o' → geneToDict o = geneToDict o' → o = o') ∧
+    (∀ o o' : FcObj, FcWF o → FcWF o' → fcToDict o = fcToDict o' → o = o') ∧
+    (∀ o o' : VcObj, VcWF o → VcWF o' → vcToDict o = vcToDict o' → o = o') := by
+  refine ⟨?_, ?_, ?_, ?_, ?_, ?_, ?_⟩
+  · intro o o' h h' e
+    have := tx_roundtrip md5 o h; rw [e, tx_roundtrip md5 o' h'] at this; exact (Except.ok.inj this).symm
+  · intro o o' h h' e
+    have := cds_roundtrip md5 o h; rw [e, cds_roundtrip md5 o' h'] at this; exact (Except.ok.inj this).symm
+  · intro o o' h h' e
+    have := feat_roundtrip md5 o h; rw [e, feat_roundtrip md5 o' h'] at this; exact (Except.ok.inj this).symm
+  · intro o o' h h' e
+    have := var_roundtrip md5 o h; rw [e, var_roundtrip md5 o' h'] at this; exact (Except.ok.inj this).symm
+  · intro o o' h h' e
+    have := gene_roundtrip md5 cs o h; rw [e, gene_roundtrip md5 cs o' h'] at this; exact (Except.ok.inj this).symm
+  · intro o o' h h' e
+    have := fc_roundtrip md5 cs o h; rw [e, fc_roundtrip md5 cs o' h'] at this; exact (Except.ok.inj this).symm
+  · intro o o' h h' e
+    have := vc_roundtrip md5 cs o h; rw [e, vc_roundtrip md5 cs o' h'] at this; exact (Except.ok.inj this).symm
+
 /-! ## T4 — the exported dictionary is loadable by the data model (io/models.py as plain data)
 
   `accepts c d` = `XModel.Schema().load(d)` raises no ValidationError: every key of `d` is a declared field, every
